@@ -28,7 +28,7 @@ class C10(pw.P21Check):
     prop = "C10"
     level = "exploration"
     label = "c10"
-    feature_overrides = {"renamed_select": False, "renamed_enum": False, "inverse": False}
+    feature_overrides = {"renamed_select": False, "renamed_enum": False, "optional_elems": False, "inverse": False}
     rule = ("plan = conforming file (generator of C01, biased to references: chains, diamonds, cycles and self references, complex instances, strings and "
             "comments containing '#', '(' and ';', sparse ids) x a seeded history of lazy-loader calls after openFile {loadInstance(id) incl. repeats and "
             "unknown order, instanceDependencies(id), table dumps, typeFromFile(id)} x delivery schedule. Oracle: index, forward table, reverse table = "
